@@ -316,8 +316,12 @@ func rawSend(conn *gws.Conn, op sendOp) (res int) {
 	}()
 	var err error
 	switch op.API {
-	case "message", "ping", "pong":
+	case "message":
 		err = conn.WriteMessage(gws.Opcode(op.Opcode), joinSlices(op.Slices))
+	case "ping":
+		err = conn.WritePing(joinSlices(op.Slices))
+	case "pong":
+		err = conn.WritePong(joinSlices(op.Slices))
 	case "string":
 		err = conn.WriteString(string(joinSlices(op.Slices)))
 	case "writev":
